@@ -132,7 +132,7 @@ def generate(st):
     cfg = {
         'n_ops': sw.choice([5, 8, 12, 16, 24, 40] + ([60, 90] if getattr(st, 'deep', False) else [])),
         'max_rows': sw.choice([2, 3, 4, 6, 6, 25] + ([40] if getattr(st, 'deep', False) else [])),
-        'cols': sorted(sw.sample(COLS, sw.randint(2, 6)) + (['data'] if sw.random() < 0.2 else []) + (['columns'] if sw.random() < 0.06 else [])),
+        'cols': sorted(sw.sample(COLS, sw.randint(2, 6)) + (['data'] if sw.random() < 0.2 else []) + (['columns'] if sw.random() < 0.06 else []) + (['key'] if sw.random() < 0.15 else [])),
         'cells': sorted(sw.sample(range(len(CELLS)), sw.randint(3, len(CELLS)))),
         'faulty': sw.random() < 0.6,
         'off': sorted(sw.sample(OPS[4:31], sw.randint(0, 8))),
@@ -370,6 +370,20 @@ def _gen_op(o, g, f, cfg, cells, cols, models, rows_n, cell, spec_for):
         if len(free) < len(olds):
             return None
         r2 = g.random()
+        if r2 > 0.8 and len(m.cols) >= 2:
+            # a swap / rotation / shift inside ONE call: a new name may be the old name of another renamed column
+            k2 = g.randint(2, min(3, len(m.cols)))
+            cs = g.sample(m.cols, k2)
+            kind = g.choice(['rotate', 'rotate', 'shift'])
+            if kind == 'rotate':
+                mp = [[cs[i], cs[(i + 1) % k2]] for i in range(k2)]
+            else:
+                freec = [c for c in cols if c not in m.cols]
+                if not freec:
+                    return None
+                mp = [[cs[i], cs[i + 1]] for i in range(k2 - 1)] + [[cs[-1], g.choice(freec)]]
+            g.shuffle(mp)
+            return {'op': o, 't': t, 'map': mp, 'via': g.choice(['rename', 'relabel'])}
         if r2 < 0.25 and all(len(c) < 6 for c in m.cols):
             form = g.choice(['suffix', 'prefix', 'callable'])
             mp = [[c, (c + '_s') if form == 'suffix' else ('p_' + c) if form == 'prefix' else (c + c)] for c in m.cols]
@@ -688,8 +702,11 @@ def model_apply(op, models):
         return ('table', new)
     if o == 'rename':
         mp = {a: b for a, b in op['map']}
-        if any(a not in m.cols for a in mp) or any(b in m.cols for b in mp.values()) or len(set(mp.values())) != len(mp):
+        if any(a not in m.cols for a in mp) or len(set(mp.values())) != len(mp):
             return ('skip',)
+        final = [mp.get(c, c) for c in m.cols]
+        if len(set(final)) != len(final):
+            return ('skip',)          # renaming onto a column that stays: outside the oracle
         if op.get('via') in ('suffix', 'prefix', 'callable'):
             exp = {c: (c + '_s') if op['via'] == 'suffix' else ('p_' + c) if op['via'] == 'prefix' else (c + c) for c in m.cols}
             if mp != exp:
